@@ -636,6 +636,15 @@ static void iauth_xquery_config_service(const char *name, const char *type)
     srv->configured = 1;
 }
 
+static void iauth_xquery_services_changed(struct conf_node_base *node);
+
+/** Handles an in-place edit of one service's protocol. */
+static CONF_UPDATE_HOOK(iauth_xquery_service_changed)
+{
+    iauth_xquery_services_changed(&conf.root->base);
+    (void)node_;
+}
+
 static void iauth_xquery_services_changed(struct conf_node_base *node)
 {
     struct iauth_xquery_service *srv;
@@ -656,7 +665,10 @@ static void iauth_xquery_services_changed(struct conf_node_base *node)
 
             if (base->type == CONF_STRING) {
                 struct conf_node_string *str = set_node_data(jj);
-                iauth_xquery_config_service(str->base.name, str->value);
+                if (!base->hook)
+                    base->hook = iauth_xquery_service_changed;
+                if (str->value)
+                    iauth_xquery_config_service(str->base.name, str->value);
             } /* else unknown type */
         }
 
